@@ -44,6 +44,9 @@ def run(ctx):
         generated(ctx, exe, "gen-k16", 16, 60, 150, props)
         nk, steps = 64, 40000
     impl_phase(ctx, "rand", exe, ["random", ctx.seed, steps, 2], [nk, 1, 1], "TraceMap", kdef(nk), consts(nk), props)
+    # half a million entries in ascending key order: the deepest red-black trees insert-only histories produce
+    from . import p_big
+    p_big.big_phase(ctx, ["map:500000"] if ctx.quick else ["map:500000", "map:1500000"])
     ctx.assumptions += [
         "TLC and the TLA+ text of C08OK / SameBut in MapOps.tla / TraceMap.tla are trusted",
         "two distinct key objects per key value and two value objects make 'stored pointers untouched' observable; the compare function orders by value, against address order",
